@@ -700,7 +700,14 @@ class Tuple(SerializableBase):
         self._prim_seq: Tuple[SERIALIZABLE_TYPE] = tuple(args)
 
     def calc_size(self):
-        return sum(p.calc_size() for p in self._prim_seq)
+        total = 0
+        for p in self._prim_seq:
+            size = p.calc_size()
+            # Variable-size member, no fixed size for the tuple as a whole
+            if size is None:
+                return None
+            total += size
+        return total
 
     def serialize(self, vals, writer: BufferWriter, ctx: Optional[ParseContext]):
         ctx = ParseContext(vals, parent=ctx)
